@@ -425,8 +425,23 @@ def scenario_ws(ch, cfg):
     w.run(until=lambda: WSPORT in net.listeners, max_steps=5000)
     reclog = []
 
-    def wsrec(x):
-        reclog.append(x)
+    ncs = {}
+    reclog2 = []
+    hbad = []
+    two = ch.draw(2, "twoconns") == 1
+
+    def wsrec(x, y, z):
+        """x: the connection the message arrived on, y: the message, z: the value of .ws.h inside the handler"""
+        w.yield_point("ws.handler")        # a handler takes a while: the other loops and threads run meanwhile
+        which = 0 if x is ncs.get(0) else (1 if x is ncs.get(1) else None)
+        if z is not x:
+            hbad.append(f"message {y!r:.30} arrived on connection {which} but .ws.h was {'connection ' + str(0 if z is ncs.get(0) else 1 if z is ncs.get(1) else '?')}")
+        if which == 0:
+            reclog.append(y)
+        elif which == 1:
+            reclog2.append(y)
+        else:
+            hbad.append(f"message {y!r:.30} handed over with an unknown connection object")
         return 1
     cl.klong["wsrec"] = wsrec
     violations = []
@@ -436,22 +451,29 @@ def scenario_ws(ch, cfg):
 
     def client_boot():
         k = cl.klong
-        k(".ws.m::{[a];a::x;wsrec(y)}")
+        from klongpy.core import KGSym
+        k(".ws.m::{[a];a::x;wsrec(x;y;.ws.h)}")
         k(f'c::.ws("ws://127.0.0.1:{WSPORT}")')
+        ncs[0] = k._context[KGSym("c")]
+        if two:
+            k(f'c2::.ws("ws://127.0.0.1:{WSPORT}")')
+            ncs[1] = k._context[KGSym("c2")]
+            stats["probe_ws_two_connections"] += 1
     a = w.spawn("client", client_boot)
     r = w.run(until=lambda: a.done, max_steps=20000, max_time=100.0)
     if not a.done:
         viol("C20:ws:connect-hangs", f".ws() never returned ({r}) blocked at {a.desc}")
     elif a.exc is not None:
         raise HarnessError(f"ws client boot failed: {a.exc!r}")
-    w.run(until=lambda: bool(conns), max_steps=5000, max_time=w.now + 50.0)
-    if not violations and not conns:
-        viol("C20:ws:no-connection", "client returned but the peer saw no connection")
+    w.run(until=lambda: len(conns) >= (2 if two else 1), max_steps=5000, max_time=w.now + 50.0)
+    if not violations and len(conns) < (2 if two else 1):
+        viol("C20:ws:no-connection", f"client returned but the peer saw {len(conns)} connection(s)")
     pushed = []
+    pushed2 = []
     sent = []
     log = []
     if not violations:
-        sock = conns[-1]
+        sock = conns[0]
         nmsg = 1 + ch.draw(8, "nmsg")
         msgs = [ch.pick(JSON_VALUES, "json") for _ in range(nmsg)]
         close_after = ch.draw(nmsg + 1, "closeafter") if ch.chance(1, 3, "peerclose") else None
@@ -477,23 +499,36 @@ def scenario_ws(ch, cfg):
                     await asyncio.sleep(0)
             flag["pushed"] = True
         P.call_soon_threadsafe(lambda: asyncio.ensure_future(push(), loop=P))
+        flag2 = {"pushed": not two}
+        if two:
+            msgs2 = [f"b{i}" for i in range(1 + ch.draw(4, "nmsg2"))]
+
+            async def push2():
+                for m in msgs2:
+                    await conns[1].send(json.dumps(m))
+                    pushed2.append(m)
+                    if ch.draw(2, "push2yield"):
+                        await asyncio.sleep(0)
+                flag2["pushed"] = True
+            P.call_soon_threadsafe(lambda: asyncio.ensure_future(push2(), loop=P))
 
         def sender():
             for lit, val in sends:
                 if state["closed_by_peer"]:
                     break
-                try:
-                    cl.klong(f"c({lit})")
-                    sent.append(val)
-                    stats["probe_ws_sent"] += 1
-                except BaseException as e:   # noqa
-                    if isinstance(e, SystemExit):
-                        raise
-                    log.append(f"send raised {type(e).__name__}")
+                # issued on the klongloop, as the CLI issues REPL lines: evaluation on one interpreter is serialised
+                # there (the interpreter is not thread-safe; handlers run on the same loop)
+                box = cl.on_klongloop(lambda lit=lit: cl.klong(f"c({lit})"))
+                w.block_until(lambda: "result" in box or "exc" in box, "send.wait")
+                if "exc" in box:
+                    log.append(f"send raised {type(box['exc']).__name__}")
                     break
+                sent.append(val)
+                stats["probe_ws_sent"] += 1
         s = w.spawn("sender", sender)
         # all pushed messages must be dispatched; bounded by virtual time (keep-alive timers never let the world go quiescent)
-        w.run(until=lambda: flag["pushed"] and s.done and len(reclog) >= len(pushed) and len(got) >= len(sent), max_steps=40000, max_time=w.now + 30.0)
+        w.run(until=lambda: flag["pushed"] and flag2["pushed"] and s.done and len(reclog) >= len(pushed) and len(reclog2) >= len(pushed2)
+              and len(got) >= len(sent), max_steps=40000, max_time=w.now + 30.0)
         w.run(max_steps=3000, max_time=w.now + 2.0)      # grace period: duplicates / late deliveries would show up here
         if not s.done:
             viol("C20:ws:send-hangs", f"c(v) blocked at {s.desc}")
@@ -525,6 +560,10 @@ def scenario_ws(ch, cfg):
                     kind = "mixed-list" if isinstance(p, list) and len({type(x) for x in p}) > 1 else type(p).__name__
                     viol(f"C20:ws:value-differs:{kind}", f"message #{i} {json.dumps(p)} reached .ws.m as {reclog[i]!r} (re-encodes to {json.dumps(d)})")
                     break
+        if hbad:
+            viol("C20:ws:wrong-connection-handle", f"{hbad[0]} ({len(hbad)} such event(s))")
+        if two and reclog2 != pushed2:
+            viol("C20:ws:second-connection-messages", f"second connection: pushed {pushed2}; its handler invocations saw {reclog2!r:.120}")
         gdec = [json.loads(g) for g in got]
         if gdec != sent[:len(gdec)] or (len(gdec) < len(sent) and not state["closed_by_peer"]):
             viol("C20:ws:sent-value-not-its-json", f"sent {sent}; peer received {got}")
